@@ -10,7 +10,9 @@ import vlib, build, protolib
 from protolib import hexs
 
 PROPS = "Props/Properties_C13.v"
-PATS = [b"abc", b"bc", b"ab", b"ca"]
+# (text, modifiers): f = fullword, w = wide, n = nocase  (model: leading markers of the pattern, see rc_split_mods)
+PATS = [(b"abc", ""), (b"bc", ""), (b"ab", ""), (b"ca", ""), (b"abc", "f"), (b"abc", "fw"), (b"abc", "fn")]
+MODWORD = {"f": "fullword", "w": "wide", "n": "nocase"}
 REPORT_ABANDONED = True    # contamination or a leak after an abandoned scan is a violation (fixed in /repo by 8a2210d)
 
 
@@ -31,7 +33,7 @@ class Rules:
             a = r["atom"]
             strs = ""
             if a[0] in "SCA":
-                strs = 'strings: $s = "%s" ' % PATS[a[1]].decode()
+                strs = 'strings: $s = "%s"%s ' % (PATS[a[1]][0].decode(), "".join(" " + MODWORD[m] for m in PATS[a[1]][1]))
             cond = {"T": "true", "F": "false", "S": "$s", "C": "#s == %d" % (a[2] if a[0] == "C" else 0),
                     "Z": "filesize == %d" % (a[1] if a[0] == "Z" else 0),
                     "U": "uint8(%d) == %d" % ((a[1], a[2]) if a[0] == "U" else (0, 0)),
@@ -59,7 +61,7 @@ class Rules:
                 bytes.fromhex(c[4:]).decode() for c in self.commands() if c.startswith("add ")]
 
 
-PATHEX = ",".join(p.hex() for p in PATS)
+PATHEX = ",".join((m + ":" if m else "") + p.hex() for p, m in PATS)
 
 
 def model_cmd(rules, flags, script, fsz, blocks, pattern):
@@ -312,9 +314,21 @@ def run(chk):
                 chk.sample({"rules": rules.describe(), "blocks": replay["blocks"], "pattern": p, "model": mline}, cap=4)
 
     # ------------------------------------------------------------ part 2: entry points
-    rules = mk([("S", 0), ("C", 0, 2), ("Z", 4096), ("U", 4095, 99), ("U", 0, 97), ("Z", 0), ("S", 1), ("C", 3, 0)],
-               [(0, 0, 0)] * 6 + [(0, 1, 0), (0, 0, 1)])
-    ebufs = [b"", b"a", b"abc", b"abcabc"]
+    # fullword strings (ascii, wide, nocase) included: a match that starts on the first or ends on the last byte of the
+    # data must be judged from the data alone, whatever lies next to it in memory
+    rules = mk([("S", 0), ("C", 0, 2), ("Z", 4096), ("U", 4095, 99), ("U", 0, 97), ("Z", 0), ("S", 1), ("C", 3, 0),
+                ("S", 4), ("C", 4, 2), ("S", 5), ("C", 5, 1), ("S", 6), ("C", 6, 2)],
+               [(0, 0, 0)] * 6 + [(0, 1, 0), (0, 0, 1)] + [(0, 0, 0)] * 6)
+    wabc = b"a\0b\0c\0"
+    ebufs = [b"", b"a", b"abc", b"abcabc", b"abc abc", b"xabc abc", b"abc abcx", b"ABC.abc", b" abc", b"abc ", wabc, wabc + b" \0" + wabc,
+             b"x\0" + wabc, wabc + b"x\0", b"..." + wabc]
+    for size in (4096, 8192, 4095, 4097):          # page multiples and +-1, a fullword match on the very first and very last bytes
+        b = bytearray(b"." * size)
+        b[0:4] = b"abc "
+        b[size - 4:size] = b" abc"
+        ebufs.append(bytes(b))
+        b[size - 7:size] = b" " + wabc
+        ebufs.append(bytes(b))
     for size in (4096, 8192, 4095, 4097):
         b = bytearray(b"x" * size)
         b[0:3] = b"abc"
@@ -324,12 +338,20 @@ def run(chk):
         ebufs.append(bytes(b))
     for _ in range(4 if quick else 30):
         ebufs.append(bytes(rng.choice(b"abcx") for _ in range(rng.range(1, 40))))
-    ENTRIES = ["rscan", "scan", "scanfile", "scanfd", "rscanfile", "rscanfd", "pscan", "prscan"]
+    ENTRIES = ["rscan", "scan", "scanfile", "scanfd", "rscanfile", "rscanfd", "pscan", "prscan",
+               # the same bytes as a slice of a larger buffer with alphanumeric neighbours, as an exact-size heap object, in a
+               # mapping that ends / starts at an inaccessible page; blocks handed over by the iterator as such slices
+               "g:rmem:slicea", "g:smem:slicea", "g:rmem:slicew", "g:smem:slicew", "g:rmem:heap", "g:smem:heap",
+               "g:rmem:pnend", "g:smem:pnstart", "pg:slicea", "pg:slicew"]
     ecases, emodel = [], []
     for bi, buf in enumerate(ebufs):
         cmds = rules.commands() + ["blocks %d 0:%s" % (len(buf), vlib.hx(buf)), "notready -"]
         for e in ENTRIES:
-            if e == "rscan":
+            if e.startswith("g:"):
+                cmds.append("gscan %s %s 0 %s" % (e.split(":")[1], e.split(":")[2], vlib.hx(buf)))
+            elif e.startswith("pg:"):
+                cmds += ["pguard " + e.split(":")[1], "piter", "pscan", "pguard none"]
+            elif e == "rscan":
                 cmds.append("rscan 0 0 " + vlib.hx(buf))
             elif e == "scan":
                 cmds += ["sflags 0", "scan " + vlib.hx(buf)]
@@ -365,6 +387,110 @@ def run(chk):
         if (mfinal, 0) != ref:
             chk.violation("entry-model", "entry points agree with each other but not with the model on %d bytes: impl=%s model=%s"
                           % (len(buf), ref, mfinal), replay)
+
+    # ------------------------------------------------------------ part 2c: blocks handed over as slices with alphanumeric neighbours
+    grules = mk([("S", 0), ("S", 4), ("C", 4, 1), ("S", 5), ("C", 5, 1), ("S", 6), ("C", 6, 2)])
+    gcases, gmodel, gmeta = [], [], []
+    for bi, buf in enumerate([b"abc abc", b"abcabc", wabc + wabc, b"xabc ABC", b"abc" + wabc]):
+        cmds = grules.commands()
+        for part in compositions(len(buf), 3):
+            blocks = [(s0, buf[s0:e0], e0 - s0) for s0, e0 in part]
+            cmds.append("blocks %d %s" % (len(buf), " ".join("%d:%s" % (b, vlib.hx(d)) for b, d, _ in blocks)))
+            for g in ("none", "slicea", "slicew"):
+                for p in ("", "01"):
+                    cmds += ["pguard " + g, "notready " + (p or "-"), "piter", "ploop 10"]
+                    gmodel.append(model_cmd(grules, 0, "-", len(buf), blocks, p))
+                    gmeta.append(("g%d" % bi, buf, blocks, g, p))
+        gcases.append(("g%d" % bi, cmds))
+    go, _ = vlib.run_cases(h, gcases, timeout=900)
+    gl, _ = vlib.run_lines(model, gmodel, timeout=900)
+    gruns = {}
+    for cid, _ in gcases:
+        runs, cur = [], []
+        for l in go.get(cid, []):
+            if l.startswith("scan msgs="):
+                cur.append(l)
+            elif l.startswith("ploop "):
+                runs.append(cur)
+                cur = []
+            elif l.startswith("crash"):
+                runs.append([l])
+        gruns[cid] = runs
+    n_guard = 0
+    gidx = {}
+    for (cid, buf, blocks, g, p), ml, mc in zip(gmeta, gl, gmodel):
+        k = gidx.get(cid, 0)
+        gidx[cid] = k + 1
+        run = gruns[cid][k] if k < len(gruns[cid]) else []
+        mcalls, mfinal, _ = parse_model(ml, grules)
+        icalls, ifinal = impl_calls(run)
+        n_guard += 1
+        if icalls != mcalls or ifinal != mfinal:
+            chk.violation("guarded-blocks:" + g, "blocks handed over as slices (%s neighbours), pattern %s: impl=%s %s model=%s %s"
+                          % (g, p or "-", icalls, ifinal, mcalls, mfinal),
+                          {"rules": grules.describe(), "buffer_hex": vlib.hx(buf), "blocks": [(b, vlib.hx(d)) for b, d, _ in blocks], "guard": g,
+                           "notready_pattern": p, "model_command": mc, "impl": run, "model": ml,
+                           "harness_commands": grules.commands() + ["blocks %d %s" % (len(buf), " ".join("%d:%s" % (b, vlib.hx(d)) for b, d, _ in blocks)),
+                                                                    "pguard " + g, "notready " + (p or "-"), "piter", "ploop 10"]})
+
+    # ------------------------------------------------------------ part 2d: regexps with \b \B ^ $ and fullword regexps at the edges of the data
+    # (not in the Coq model: all entry points must agree with each other and with Python's re on the same bytes)
+    import re as _re
+    RX = [("rb", r"/\babc\b/", rb"\babc\b"), ("re", r"/abc$/", rb"abc\Z"), ("rs", r"/^abc/", rb"\Aabc"), ("rB", r"/abc\B/", rb"abc\B"),
+          ("rBb", r"/\Babc/", rb"\Babc"), ("rf", r"/ab[a-z]/ fullword", None), ("rbe", r"/\bab.$/", rb"\bab[^\n]\Z")]
+    rxsrc = "".join('rule %s { strings: $s = %s condition: $s }\n' % (n, y) for n, y, _ in RX)
+    rxbufs = [b"abc", b"abc abc", b"xabc abc", b"abc abcx", b" abc", b"abc ", b"abcabc", b"xabcx", b"ab", b""]
+    for size in (4096, 4095, 4097):
+        b = bytearray(b"." * size)
+        b[0:4] = b"abc "
+        b[size - 4:size] = b" abc"
+        rxbufs.append(bytes(b))
+    RXE = ["rscan", "scan", "scanfile", "scanfd", "rscanfile", "rscanfd", "pscan", "g:rmem:slicea", "g:smem:slicea", "g:rmem:slicew",
+           "g:rmem:heap", "g:smem:pnend", "g:rmem:pnstart", "pg:slicea"]
+    xcases = []
+    for bi, buf in enumerate(rxbufs):
+        cmds = ["newcompiler", "add " + hexs(rxsrc), "getrules", "scanner 0", "blocks %d 0:%s" % (len(buf), vlib.hx(buf)), "notready -"]
+        for e in RXE:
+            if e.startswith("g:"):
+                cmds.append("gscan %s %s 0 %s" % (e.split(":")[1], e.split(":")[2], vlib.hx(buf)))
+            elif e.startswith("pg:"):
+                cmds += ["pguard " + e.split(":")[1], "piter", "pscan", "pguard none"]
+            elif e == "rscan":
+                cmds.append("rscan 0 0 " + vlib.hx(buf))
+            elif e == "scan":
+                cmds += ["sflags 0", "scan " + vlib.hx(buf)]
+            elif e == "pscan":
+                cmds += ["piter", "pscan"]
+            else:
+                cmds.append("%s 0 %s" % (e, vlib.hx(buf)))
+        xcases.append(("x%d" % bi, cmds))
+    xo, _ = vlib.run_cases(h, xcases, timeout=900)
+    n_rx = 0
+    for (cid, cmds), buf in zip(xcases, rxbufs):
+        lines = [l for l in xo.get(cid, []) if l.startswith("scan msgs=") or l.startswith("crash")]
+        replay = {"rules": rxsrc, "buffer_hex": vlib.hx(buf) if len(buf) < 200 else "len=%d, 'abc ' first, ' abc' last" % len(buf),
+                  "harness_commands": cmds if len(buf) < 200 else "see checks/c13.py part 2d"}
+        if len(lines) != len(RXE) or any(l.startswith("crash") for l in lines):
+            chk.violation("regexp-crash", "regexp entry-point case %s: %s" % (cid, lines[-2:]), replay)
+            continue
+        res = {}
+        for e, l in zip(RXE, lines):
+            pp = protolib.parse_scan(l)
+            res[e] = ([(m[0], m[2], m[3].get("$s")) for m in pp[0] if m[0] in "MN"], pp[1])
+            n_rx += 1
+        ref = res["rscan"]
+        for e in RXE:
+            if res[e] != ref:
+                chk.violation("regexp-entry:" + e.split(":")[0], "regexps with \\b / $ / fullword at the edges of the data: entry %s differs from "
+                              "yr_rules_scan_mem on the same %d bytes: %s vs %s" % (e, len(buf), res[e], ref), dict(replay, entry=e))
+        for (name, _, pyre), (kind, rname, offs) in zip(RX, ref[0]):
+            if pyre is None:
+                exp = [m.start() for m in _re.finditer(rb"(?=ab[a-z])", buf)
+                       if not (m.start() > 0 and buf[m.start() - 1:m.start()].isalnum()) and not buf[m.start() + 3:m.start() + 4].isalnum()]
+            else:
+                exp = [m.start() for m in _re.finditer(b"(?=" + pyre + b")", buf)]
+            if (offs or []) != exp or (kind == "M") != bool(exp):
+                chk.violation("regexp-reference", "rule %s on %d bytes: yara finds %s (%s), Python's re finds %s" % (name, len(buf), offs, kind, exp), replay)
 
     # ------------------------------------------------------------ part 2b: a REUSED scanner in the entry-point matrix, more than 64 rules
     # every scanner-level entry point (mem, file, fd, single-block iterator one-shot and resumed) is called on a scanner
@@ -505,6 +631,17 @@ def run(chk):
         pre = r1.commands() + ["blocks 6 0:616263 3:616263", "notready 01", "piter"]
         lcases = [("completed", pre + ["ploop 5"] + end), ("abandoned_destroy", pre + ["pscan"] + end),
                   ("abandoned_rescan_destroy", pre + ["pscan", "scan 6162"] + end)]
+        # the entry-point matrix (exact-size heap objects, slices, PROT_NONE neighbours) under AddressSanitizer: any read
+        # outside the bytes handed over is reported
+        small = [(cid, cmds) for (cid, cmds), buf in zip(ecases, ebufs) if len(buf) < 64]
+        ao, aerr = vlib.run_cases(ha, small, timeout=900)
+        bad = [l for l in aerr.split("\n") if "AddressSanitizer" in l and "leak" not in l.lower()]
+        crashed = [cid for cid, _ in small if any(l.startswith("crash") for l in ao.get(cid, []))]
+        obs["asan_entry_matrix"] = {"cases": len(small), "reports": bad[:3], "crashed": crashed}
+        if bad or crashed:
+            chk.violation("asan-entry-matrix", "AddressSanitizer reports an access outside the scanned bytes (or the run crashed) in the entry-point "
+                          "matrix: %s %s" % (bad[:2], crashed), {"harness_commands": small[0][1] if not crashed else dict(small)[crashed[0]], "variant": "asan",
+                                                                   "stderr": aerr[-3000:]})
         o, _ = vlib.run_cases(ha, lcases)
         obs["abandoned_scan_leakcheck"] = {k: [l for l in o.get(k, []) if l.startswith("leakcheck") or l.startswith("crash")] for k, _ in lcases}
         for k, cmds in lcases:
@@ -676,9 +813,9 @@ def run(chk):
         "position_keeping": str(fin["keep"]), "rewinding": str(fin["naive"]), "first_block_lost": fin["keep"][1] != fin["naive"][1],
         "what": "capi.rst does not say that after a not-ready first() the scanner continues with next(); an iterator that "
                 "sets its position in first() before the readiness test loses block 0 on the retry"}
-    chk.note(evaluations=n_runs + n_entry + n_aband + n_ep + n_own + n_reused, distinct_nontrivial=len([d for d in distinct if "1" in d[2]]),
-             traces_validated_against_impl=n_runs + n_entry + n_aband + n_ep + n_own + n_reused, interrupted_runs=n_interrupted, conforming_patterns=n_conf,
-             patterns_outside_contract=n_nonconf, follow_up_scans=n_follow, entry_point_scans=n_entry, abandoned_scan_scenarios=n_aband, reused_scanner_entry_scans=n_reused, owned_resource_scans=n_own, entrypoint_runs=n_ep, entrypoint_runs_interrupted_after_header_block=n_ep_after, observations=obs,
+    chk.note(evaluations=n_runs + n_entry + n_aband + n_ep + n_own + n_reused + n_guard + n_rx, distinct_nontrivial=len([d for d in distinct if "1" in d[2]]),
+             traces_validated_against_impl=n_runs + n_entry + n_aband + n_ep + n_own + n_reused + n_guard + n_rx, interrupted_runs=n_interrupted, conforming_patterns=n_conf,
+             patterns_outside_contract=n_nonconf, follow_up_scans=n_follow, entry_point_scans=n_entry, abandoned_scan_scenarios=n_aband, guarded_block_runs=n_guard, regexp_entry_scans=n_rx, reused_scanner_entry_scans=n_reused, owned_resource_scans=n_own, entrypoint_runs=n_ep, entrypoint_runs_interrupted_after_header_block=n_ep_after, observations=obs,
              rule="one evaluation = one complete run (all calls until the scan completes) or one entry-point scan; distinct = different "
                   "(buffer, block partition incl. null-data blocks, file_size known?, not-ready pattern); non-trivial = at least one "
                   "not-ready answer")
